@@ -373,7 +373,9 @@ func c05Run(c *Ctx) {
 	if c.Shard == 0 {
 		// (with them: pointers that go through a boolean additionalProperties / additionalItems)
 		for _, ref := range []string{"missing.json#/definitions/a", "sub/missing.json", "../missing.json#/parameters/a", "http://h/x/missing.json#/definitions/a", "file:///nowhere/x.json",
-			"#/definitions/bools/additionalProperties/type", "#/definitions/bools/additionalItems/title", "sib.json#/definitions/bools/additionalProperties/not", "#/definitions/bools/additionalProperties/allows", "#/definitions/bools/additionalItems/schema"} {
+			"#/definitions/bools/additionalProperties/type", "#/definitions/bools/additionalItems/title", "sib.json#/definitions/bools/additionalProperties/not", "#/definitions/bools/additionalProperties/allows", "#/definitions/bools/additionalItems/schema",
+			// response codes spelled in a way the document does not hold
+			"#/paths/~1a/get/responses/0200", "#/paths/~1a/get/responses/+200", "#/paths/~1a/get/responses/200.0", "sib.json#/paths/~1a/get/responses/00200"} {
 			for fn := range map[string]bool{"ResolveRefWithBase": true, "ResolveParameterWithBase": true, "ResolveResponseWithBase": true, "ResolvePathItemWithBase": true, "ResolveItemsWithBase": true} {
 				for _, rm := range rootModes {
 					run(c05Case{Fn: fn, Ref: ref, Root: rm, Kind: "dangling-document"})
